@@ -77,14 +77,20 @@ Proof.
   - right. split; [exact H|]. apply Q.min_r. exact H.
 Qed.
 
-(** [qminmax]: eliminate every [Qmax]/[Qmin] of the goal by case analysis, leaving linear
-    goals for [lra]. *)
+(** [qminmax]: eliminate every [Qmax]/[Qmin] of the goal and of the hypotheses by case
+    analysis, leaving linear goals for [lra]. *)
 Ltac qminmax :=
   repeat match goal with
   | |- context [Qmax ?a ?b] =>
       let H := fresh "Hm" in let E := fresh "Em" in
       destruct (Qmax_case_le a b) as [[H E]|[H E]]; rewrite E in *; clear E
   | |- context [Qmin ?a ?b] =>
+      let H := fresh "Hm" in let E := fresh "Em" in
+      destruct (Qmin_case_le a b) as [[H E]|[H E]]; rewrite E in *; clear E
+  | H0 : context [Qmax ?a ?b] |- _ =>
+      let H := fresh "Hm" in let E := fresh "Em" in
+      destruct (Qmax_case_le a b) as [[H E]|[H E]]; rewrite E in *; clear E
+  | H0 : context [Qmin ?a ?b] |- _ =>
       let H := fresh "Hm" in let E := fresh "Em" in
       destruct (Qmin_case_le a b) as [[H E]|[H E]]; rewrite E in *; clear E
   end.
